@@ -1,8 +1,8 @@
 SPECIFICATION Spec
 CONSTANTS
-  Groups = {"wallet"}
-  Pinned = TRUE
-  InPlace = FALSE
+  Groups = {"registrar"}
+  Pinned = FALSE
+  InPlace = TRUE
   MaxPar = 2
 INVARIANTS TypeOK Linearizable Disciplined
 CONSTRAINT Bounded
